@@ -146,7 +146,7 @@ DEVIATIONS = [D_DQ, D_CTM, D_TC, D_FORM, D_TD, D_TF, D_QCS]
 class TM:
     """PDF text model.  Immutable-style: ``apply`` returns a new object."""
 
-    __slots__ = ("gs", "stack", "intext", "Tm", "Tlm", "out", "res", "wset", "dev", "dctm", "gcs")
+    __slots__ = ("gs", "stack", "intext", "Tm", "Tlm", "out", "res", "wset", "dev", "dctm", "gcs", "tq")
 
     def __init__(self, wset_i=0, dev=frozenset()):
         self.gs = dict(GS0)
@@ -160,12 +160,13 @@ class TM:
         self.dev = dev
         self.dctm = gfx.IDENT  # only used under D_CTM
         self.gcs = "DeviceGray"  # only used under D_QCS
+        self.tq = False  # inside a q ... Q pair opened within the current text object
 
     def copy(self) -> "TM":
         o = TM.__new__(TM)
         o.gs = dict(self.gs)
         o.stack, o.intext, o.Tm, o.Tlm, o.out = self.stack, self.intext, self.Tm, self.Tlm, self.out
-        o.res, o.wset, o.dev, o.dctm, o.gcs = self.res, self.wset, self.dev, self.dctm, self.gcs
+        o.res, o.wset, o.dev, o.dctm, o.gcs, o.tq = self.res, self.wset, self.dev, self.dctm, self.gcs, self.tq
         return o
 
     # state the future depends on (outputs excluded)
@@ -173,7 +174,7 @@ class TM:
         g = self.gs
         return (tuple(g[k] for k in ("ctm", "Tc", "Tw", "Th", "Tl", "font", "Tfs", "rise", "fill")),
                 tuple(tuple(s[k] for k in ("ctm", "Tc", "Tw", "Th", "Tl", "font", "Tfs", "rise", "fill")) for s in self.stack),
-                self.intext, self.Tm if self.intext else None, self.Tlm if self.intext else None)
+                self.intext, self.Tm if self.intext else None, self.Tlm if self.intext else None, self.tq)
 
     def apply(self, ev) -> "TM":
         m = self.copy()
@@ -193,11 +194,16 @@ class TM:
             return
         if op == "q":
             self.stack = self.stack + (dict(g),)
+            if self.intext:
+                self.tq = True
         elif op == "Q":
             if self.stack:
                 self.gs = dict(self.stack[-1])
                 self.stack = self.stack[:-1]
                 self.dctm = self.gs["ctm"]
+            # Tm / Tlm are untouched: they are not graphics-state parameters (ISO 9.4.1), and since nothing is shown or
+            # positioned between an in-text q and its Q (generator), "the pen as it was at q" is the same place
+            self.tq = False
         elif op == "cm":
             g["ctm"] = gfx.mat_mul(gfx.mat(*a), g["ctm"])
             self.dctm = g["ctm"]
@@ -366,10 +372,17 @@ CM = [("cm", 1, 0, 0, 1, 16, 24), ("cm", 2, 0, 0, Fr(1, 2), 0, 0), ("cm", 0, 1, 
 FORM_EV = [("Do", "/FmA"), ("Do", "/FmN"), ("Do", "/FmI")]
 
 
+TQ_BETWEEN = [("g", Fr(1, 2)), ("rg", 1, 0, Fr(1, 2)), ("Tc", 2), ("Tz", 50), ("Tf", "/F2", 10), ("TL", 12)]
+
+
 def enabled(m: TM) -> List[Tuple]:
     have_font = m.gs["font"] is not None
+    if m.intext and m.tq:
+        # q ... Q in the middle of a text line: only parameters that Q restores change in between; nothing is shown or
+        # positioned, so every reading (Tm outside the graphics state / text state saved with the pen offset) agrees
+        return [("Q",)] + TQ_BETWEEN
     if m.intext:
-        ev = [("ET",)] + TEXT_STATE + colour_events(m) + POSITION
+        ev = [("ET",), ("q",)] + TEXT_STATE + colour_events(m) + POSITION
         if have_font:
             ev += SHOW
         ev += ILL_TEXT
@@ -388,6 +401,8 @@ def enabled(m: TM) -> List[Tuple]:
 def probes(m: TM) -> List[Tuple[Tuple, ...]]:
     """show operators fired in a state at the depth bound (each from that same state)"""
     setf = () if m.gs["font"] is not None else (("Tf", "/F1", 8),)
+    if m.intext and m.tq:
+        return [(("Q",),) + setf + (s,) for s in SHOW]
     if m.intext:
         return [setf + (s,) for s in SHOW]
     out = [(("BT",),) + setf + (s,) + (("ET",),) for s in SHOW]
@@ -413,7 +428,8 @@ META = {
         "breadth-first search over operator histories from three root prefixes (empty page; BT /F1 8 Tf; q cm g BT /F2 10 Tf 2 Tc) "
         "with the operator instances of the alphabet (q Q cm x3, BT ET, Tc Tw Tz TL Ts Tf x2 values, Td TD x2 each (one a zero offset) Tm x3 (one the identity) T*, Tj x2 TJ ' \", g rg sc, ill-typed full-count g rg k sc, "
         "Do of a self-contained / a nested / an inheriting form XObject, 16 further ill-formed instances), only ISO-conformant orders "
-        "(no q/Q/cm/Do inside BT..ET, show only after Tf); state = (canonical real interpreter state, model state), deduplicated; "
+        "(no cm/Do inside BT..ET, show only after Tf) plus one tolerated construct: q ... Q opened inside a text object (also in the middle of a text "
+        "line) with only g rg Tc Tz Tf TL in between -- after Q the pen is where it was and every parameter has its value from before q; state = (canonical real interpreter state, model state), deduplicated; "
         "every transition re-executes the whole history on the real interpreter and compares every glyph (text, font, matrix, advance, box, "
         "size, fill colour, colour space); in every state at the depth bound every show operator (and Do+show) is fired separately; every history up to "
         "split2_depth is split into 2 content streams at every token boundary (white space kept left, right, or CR/LF on both sides; only the first variant beyond split3_depth) and up to split3_depth into every 3-stream division plus empty streams, and histories up to "
